@@ -297,6 +297,28 @@ PROPS["C11"] = dict(
                "arithmetically and the statement does not mention it",
 )
 
+PROPS["C09"] = dict(
+    engine="netsim", level="exploration",
+    quick=dict(runs=48000, workers=16, stall_s=180),
+    thorough=dict(budget_s=900, workers=16, stall_s=300),
+    rule="one evaluation = one seeded history of 10-80 steps against one real stack with two NICs, three local addresses (two on NIC 1, one on NIC 2), an "
+         "unassigned address, optionally promiscuous mode or AddSubnet on NIC 1, three ports and three remote (address, port) pairs: UDP sockets bound to "
+         "wildcard/specific addresses or connected, TCP listeners (wildcard/specific), TCP connections created by real handshakes with the scripted peer, "
+         "closes in any order, interleaved with UDP datagrams and in-window TCP data segments on either NIC whose 4-tuples are aimed at, or one coordinate "
+         "beside, an open socket; after every packet every open socket is read; non-trivial = at least one packet reached its socket; distinct = "
+         "distinct event-log hash",
+    expected_probes=["delivered_to_winner", "to_address_not_owned", "tcp_no_match_reset", "tcp_connections", "segment_for_closing_connection"],
+    real=NET_REAL, stubs=NET_STUBS + PEER_STUB, assumptions=NET_ASSUME + [
+        "a TCP connection the application has closed still occupies its 4-tuple while its closing exchange runs; what answers a segment for it is not asserted"],
+    hang_is_violation=True,
+    level_text="seeded search over socket sets and inbound 4-tuples against a reference function written from the statement (destination address owned by "
+               "the receiving interface, or promiscuous/subnet; then connected before bound, specific local address before wildcard): exactly the winner "
+               "can read the payload, with the true sender, exactly once; everybody else has nothing to read; a TCP segment matching no socket draws "
+               "exactly one reset, one for an address the interface does not own draws nothing; evidence, not proof",
+    level_note="registration and delivery race at step granularity plus seeded yields; each registration is one critical section of the demultiplexer, so a "
+               "finer grain adds nothing this one-P scheduler can see (DESIGN.md section 11)",
+)
+
 PENDING = "check not built yet (work in progress; will be claimed once its simulation exists)"
 NOT_APPLICABLE = {
     "C15": "pure functions of their input (header codecs, RFC 1071 checksum): no schedule, clock, fault, I/O or second party for a simulator to control; "
